@@ -30,8 +30,8 @@ MANIFEST = dict(
          "list exactly their scope's specifics, each once; generic interface names of a module distinct; PyMethodDef and luaL_Reg keys "
          "of a scope distinct, dispatcher keys carry no suffix. module_entities_distinct_partial: specifics+interface names+other "
          "entities distinct given that no interface name equals a specific and that derived-type/enum names (not modelled) are apart. "
-         "Negation witnesses for the known ways to leave the domain (explicit _1, name like an auto suffix, overloaded class-template "
-         "members). The model is tied to the code on every run; an implementation-only oracle compares generated names with documented ones.",
+         "type-bound generics and generic interfaces put every member in force exactly under its own cpp_if. Negation witnesses for "
+         "the known ways to leave the domain (explicit _1, name like an auto suffix). The model is tied to the code on every run; an implementation-only oracle compares generated names with documented ones.",
     design="3 C08",
     note="Trusted: Lean kernel (axioms propext, Classical.choice, Quot.sound); the hand-written model Model/Names.lean, validated only "
          "on generated inputs by differential correspondence (records of generate_functions per scope, un_camel, name templates, generic "
@@ -59,7 +59,6 @@ THEOREMS = {
         "Shroud.Names.fortran_names_distinct",
         "Shroud.Names.explicit_suffix_clash",
         "Shroud.Names.distinct_underscore_forms_insufficient",
-        "Shroud.Names.class_template_overloads_clash",
         "Shroud.Names.expand_c_names_eq",
         "Shroud.Names.expand_f_names_eq",
         "Shroud.Names.expand_c_names_distinct",
@@ -74,6 +73,8 @@ THEOREMS = {
         "Shroud.Names.class_instantiation_scope",
         "Shroud.Names.class_instantiations_separated",
         "Shroud.Names.generic_interface_members",
+        "Shroud.Names.type_bound_generic_own_condition",
+        "Shroud.Names.generic_member_own_condition",
         "Shroud.Names.generic_members_distinct",
         "Shroud.Names.type_bound_generic_members_distinct",
         "Shroud.Names.interface_members_distinct",
@@ -729,25 +730,24 @@ def entries_of(fns):
     out = []
     for fn in fns:
         gs = [g if g is not None else "_%d" % j for j, g in enumerate(fn["generics"])]
-        if (fn["tinst"] or fn.get("usesT")) and fn["ndefaults"]:
+        if fn["tinst"] and fn["ndefaults"]:
             # every instantiation gets its default-argument variants, numbered per instantiation
-            # (a member using a class template parameter has the one instantiation of its class)
-            for i, t in enumerate(fn["tinst"] or [None]):
-                ts = "" if t is None else (t["explicit"] or (FLAT[t["types"][0]] if len(t["types"]) == 1 else "_%d" % i))
+            for i, t in enumerate(fn["tinst"]):
+                ts = t["explicit"] or (FLAT[t["types"][0]] if len(t["types"]) == 1 else "_%d" % i)
                 for k in range(fn["ndefaults"] + 1):
                     e = fn["dsuffix"][k] if k < len(fn["dsuffix"]) else fn["suffix"]
                     out.append((e if e is not None else "_%d" % k, ts, gs, fn["hasBuf"], True, fn.get("cpp_if")))
             continue
         for k in range(fn["ndefaults"]):
             e = fn["dsuffix"][k] if k < len(fn["dsuffix"]) else fn["suffix"]
-            out.append((e, "", gs, fn["hasBuf"], bool(fn["tinst"]) or bool(fn.get("usesT")), fn.get("cpp_if")))
+            out.append((e, "", gs, fn["hasBuf"], bool(fn["tinst"]), fn.get("cpp_if")))
         e = fn["dsuffix"][fn["ndefaults"]] if (fn["ndefaults"] and fn["ndefaults"] < len(fn["dsuffix"])) else fn["suffix"]
         if fn["tinst"]:
             for i, t in enumerate(fn["tinst"]):
                 ts = t["explicit"] or (FLAT[t["types"][0]] if len(t["types"]) == 1 else "_%d" % i)
                 out.append((e, ts, gs, fn["hasBuf"], True, fn.get("cpp_if")))
         else:
-            out.append((e, "", gs, fn["hasBuf"], bool(fn.get("usesT")), fn.get("cpp_if")))
+            out.append((e, "", gs, fn["hasBuf"], False, fn.get("cpp_if")))
     return out
 
 
@@ -834,8 +834,7 @@ def in_domain(prog):
             fst.setdefault(module, []).append((fscope + u).lower())
             expl = []
             for fn in fns:
-                if fn.get("usesT") and (len(fns) > 1 or fn["generics"] or fn["hasBuf"] or
-                                        (fn["ndefaults"] and (fn["suffix"] is not None or 0 < len(fn["dsuffix"]) <= fn["ndefaults"]))):
+                if fn.get("usesT") and (fn["generics"] or fn["hasBuf"]):
                     return False
                 if fn["tinst"]:
                     if len(fns) > 1 or (fn["ndefaults"] and (fn["suffix"] is not None or
@@ -853,7 +852,7 @@ def in_domain(prog):
                     expl.append(e)
             if any(AUTO.match(e) or not TOKEN.match(e) or e == "_bufferify" for e in expl):
                 return False
-            if any(fn["tinst"] or fn.get("usesT") for fn in fns):
+            if any(fn["tinst"] for fn in fns):
                 continue
             if len(set(expl)) != len(expl):
                 return False
